@@ -3,3 +3,5 @@ CHECK_DEADLOCK FALSE
 CONSTANTS
   Shapes <- AllShapes
   Sizes <- SizesT
+  HugeDeep <- HugeDeepT
+  HugeChain <- HugeChainT
